@@ -8,10 +8,12 @@ from harness.common import core
 from harness.common.core import rat
 
 ID = "C18"
-LEAN_TARGETS = ["ChmpyVerif.Props.C18"]
+LEAN_TARGETS = ["ChmpyVerif.Props.C18", "ChmpyVerif.Props.C18Scale"]
 T = "ChmpyVerif.Props.C18."
 THEOREMS = [T + n for n in ("so3_cofactor", "so3_trace_ge", "o3_neg_trace_le", "weighted_trace_le", "kabsch_orthogonal", "kabsch_det_one",
                             "kabsch_optimal_trace", "residual_expand", "kabsch_optimal", "kabsch_congruent_exact", "rmsd_is_min")]
+# scale freedom: the same rotation is optimal whatever unit the coordinates are expressed in
+THEOREMS += [T + n for n in ("svdSpec_scale", "covariance_scale", "residual_scale", "kabsch_optimal_any_unit", "svdSpec_any_unit")]
 TRUSTED = [
     "numpy.linalg.svd returns (U, s, Vt) with U, Vt orthogonal, s descending and non-negative, U·diag(s)·Vt = M (hypothesis SvdSpec of the theorems; "
     "checked numerically on every captured call)",
@@ -110,8 +112,8 @@ def correspond(ctx):
         U, s, Vt = rec["usv"]
         M = rec["M"]
         scale = max(1.0, np.abs(M).max())
-        spec_ok = (np.allclose(U @ U.T, np.eye(3), atol=1e-10) and np.allclose(Vt @ Vt.T, np.eye(3), atol=1e-10) and s[0] >= s[1] >= s[2] >= 0
-                   and np.allclose((U * s) @ Vt, M, atol=1e-9 * scale) and np.allclose(M, A.T @ B, atol=1e-9 * scale))
+        spec_ok = (np.allclose(U @ U.T, np.eye(3), rtol=0, atol=1e-10) and np.allclose(Vt @ Vt.T, np.eye(3), rtol=0, atol=1e-10) and s[0] >= s[1] >= s[2] >= 0
+                   and np.allclose((U * s) @ Vt, M, rtol=0, atol=1e-9 * scale) and np.allclose(M, A.T @ B, rtol=0, atol=1e-9 * scale))
         if not spec_ok:
             ctx.disagree("svd-spec", {"kind": kind, "n": len(A)}, "SvdSpec holds", "captured numpy.linalg.svd factors violate the specification (or M != AᵀB)")
             continue
@@ -124,7 +126,7 @@ def correspond(ctx):
         return
     for (R, inp), m in zip(expect, outs):
         mv = np.array([bits2f(t) for t in m.split()]).reshape(3, 3) if len(m.split()) == 9 else None
-        if mv is None or not np.allclose(mv, R, atol=1e-12):
+        if mv is None or not np.allclose(mv, R, rtol=0, atol=1e-12):
             ctx.disagree("kabsch", inp, str(mv), str(R))
     ctx.count("correspondence_lines", len(lines))
 
@@ -147,6 +149,7 @@ def judge(seed, nrand):
         return kind, "returned matrix is not orthogonal"
     if abs(np.linalg.det(R) - 1.0) > 1e-9:
         return kind, f"returned matrix has determinant {np.linalg.det(R):.6f} (improper rotation)"
+    A_in = A                      # as handed over (possibly an integer array)
     A = np.asarray(A, dtype=float)
     sc = max(float(np.abs(A).max()), float(np.abs(B).max())) / 5.0          # size of the data relative to the unscaled generator
     best = rmsd(A, B, R)
@@ -166,10 +169,10 @@ def judge(seed, nrand):
     for C in cands:
         if rmsd(A, B, C) < best - 1e-9 * sc:
             return kind, f"a proper rotation gives RMSD {rmsd(A, B, C):.10g} < {best:.10g} of the returned one (coordinates of size {5 * sc:.3g})"
-    r2 = num.rmsd_points(A, B)
+    r2 = num.rmsd_points(A_in, B)
     if abs(r2 - best) > 1e-9 * sc:
         return kind, f"rmsd_points = {r2} but the RMSD after optimal alignment is {best}"
-    if not np.allclose(num.reorient_points(A, B), A @ R, rtol=0, atol=1e-10 * sc):
+    if not np.allclose(num.reorient_points(A_in, B), A @ R, rtol=0, atol=1e-10 * sc):
         return kind, "reorient_points is not A·R"
     # the same array objects again after the first set was turned IN PLACE (as Molecule.rotate does): the helpers answer for the
     # coordinates the arrays hold now
@@ -219,9 +222,9 @@ def judge_dimer(seed):
         return f"Dimer(..., transform_ab='calculate') raised {type(ex).__name__}: {ex}"
     pa = P - P.mean(axis=0)
     pb = b.positions - b.positions.mean(axis=0)
-    if abs(np.linalg.det(R) - 1) > 1e-9 or not np.allclose(pb @ R, pa, atol=1e-8):
+    if abs(np.linalg.det(R) - 1) > 1e-9 or not np.allclose(pb @ R, pa, rtol=0, atol=1e-8):
         return "Dimer.transform_ab does not superpose the (congruent) second molecule on the first by a proper rotation"
-    if not np.allclose(v, b.centroid - a.centroid, atol=1e-10):
+    if not np.allclose(v, b.centroid - a.centroid, rtol=0, atol=1e-10):
         return "Dimer.transform_ab translation is not the centroid difference"
     return None
 
